@@ -166,6 +166,15 @@ def gen_case(rng, profile):
         for _ in range(rng.choice([0, 1, 1, 2, 3])):
             app.append("" if rng.random() < 0.15 else (hostile(rng) if rng.random() < 0.8 else "plain"))
         extra = [rng.choice(["sub", "run it"])] if rng.random() < 0.1 else []
+        if rng.random() < 0.2:
+            # line breaks (an unstripped readline() value, a pasted block): trailing, leading or in the middle
+            nl = lambda w: rng.choice([w + "\n", "\n" + w, w + "\n" + w, w + "\r\n"])  # noqa: E731
+            strs = [k for k, v in values.items() if isinstance(v, str) and v and not os.path.isabs(v)]
+            if strs and rng.random() < 0.6:
+                k = rng.choice(strs)
+                values[k] = nl(values[k])
+            else:
+                app.append(nl(rng.choice(["para", "x7", "a.b"])))
         return {"fields": fields, "values": values, "append_args": app, "exe_extra": extra}
     raise AssertionError(profile)
 
